@@ -53,7 +53,20 @@ fn sys_str(n: SyscallName) -> &'static str {
     }
 }
 fn msg_num(m: &str) -> i64 {
-    m.strip_prefix('p').and_then(|x| x.parse().ok()).unwrap_or(-1)
+    match m {
+        "invalid memory reference" => 900_001,
+        "stack overflow" => 900_002,
+        _ => m.strip_prefix('p').and_then(|x| x.parse().ok()).unwrap_or(-1),
+    }
+}
+
+#[inline(never)]
+#[allow(unconditional_recursion)]
+fn overflow(n: u64) -> u64 {
+    let mut pad = [0u8; 4096];
+    pad[(n % 4096) as usize] = n as u8;
+    std::hint::black_box(&mut pad);
+    overflow(n + 1) + u64::from(pad[(n % 4096) as usize])
 }
 fn st_json(s: St) -> Value {
     match s {
@@ -211,6 +224,33 @@ fn body(co: u64, steps: Vec<Value>, s: &Suspender<usize, usize>, param: usize) -
                 rec(json!({"ev": "step", "co": co, "a": "return", "v": r, "ts": 0}));
                 return r;
             }
+            "fault" => {
+                let m = st["m"].as_u64().unwrap();
+                rec(json!({"ev": "step", "co": co, "a": "fault", "v": m, "ts": 0}));
+                flush();
+                match st["kind"].as_str().unwrap() {
+                    "null_write" => unsafe { std::ptr::write_volatile(std::ptr::null_mut::<u8>(), 1) },
+                    "wild_read" => unsafe {
+                        let _ = std::ptr::read_volatile(0xdead_0000usize as *const u8);
+                    },
+                    "overflow" => {
+                        let _ = std::hint::black_box(overflow(0));
+                    }
+                    "foreign_stack" => {
+                        // fault while the stack pointer is outside every segment of this coroutine
+                        let layout = std::alloc::Layout::from_size_align(64 * 1024, 4096).unwrap();
+                        let base = unsafe { std::alloc::alloc(layout) };
+                        unsafe {
+                            psm::on_stack(base, 64 * 1024, || std::ptr::write_volatile(std::ptr::null_mut::<u8>(), 1));
+                        }
+                    }
+                    _ => {
+                        // overflow inside a grown segment: no further growth is requested
+                        let _ = Co::maybe_grow_with(usize::MAX / 2, 64 * 1024, || std::hint::black_box(overflow(0)));
+                    }
+                }
+                rec(json!({"ev": "step", "co": co, "a": "survived_fault", "v": 0, "ts": 0}));
+            }
             "panic" => {
                 let m = st["m"].as_u64().unwrap();
                 rec(json!({"ev": "step", "co": co, "a": "panic", "v": m, "ts": 0}));
@@ -273,7 +313,15 @@ fn run_scenario(sc: &Value) {
             Err(e) => rec(json!({"ev": "died", "how": "unwound", "msg": panic_msg(&e), "scenario": sc["id"], "step": 0})),
         }
         rec(json!({"ev": "state", "co": c, "st": st_json(cos[(c - 1) as usize].state())}));
-        rec(json!({"ev": "cur", "some": Co::current().is_some()}));
+        rec(json!({"ev": "cur", "some": Co::current().is_some(), "susp": Suspender::<usize, usize>::current().is_some()}));
+    }
+    if sc.get("post_sleep").and_then(Value::as_bool).unwrap_or(false) {
+        // the resuming thread must continue normally: a hooked 1 ms sleep on this plain thread
+        rec(json!({"ev": "post_b"}));
+        flush();
+        let t0 = mono_ns();
+        let r = open_coroutine_core::syscall::usleep(None, 1000);
+        rec(json!({"ev": "post_e", "ret": r, "ms": (mono_ns() - t0) / 1_000_000}));
     }
     rec(json!({"ev": "cend", "scenario": sc["id"]}));
     // coroutines that are still suspended are reset by Drop (force_reset)
@@ -285,6 +333,9 @@ fn main() {
     open_out(&a.out, a.append);
     std::panic::set_hook(Box::new(|_| {}));
     let scs = read_scenarios(&a.scenarios);
+    if scs.iter().any(|s| s.get("post_sleep").and_then(Value::as_bool).unwrap_or(false)) {
+        open_coroutine_core::net::EventLoops::init(&open_coroutine_core::config::Config::single());
+    }
     start_watchdog(Duration::from_millis(3000));
     for (i, sc) in scs.iter().enumerate() {
         let i = i as u64;
